@@ -7,7 +7,8 @@ import PySMT.Impl.Rewritings.Shannon
 The ranking function of the disjoint set compares node ids of symbols; the model takes them
 as a parameter `rank` (the harness sends the ids the real run used).  `DisjointSet.group` is
 determined by `DisjointSet.leader` (the group of a leader is the set of keys it leads), so
-only the leader map is kept.  `none` = the Python code raises (`str - str` in `compare`).
+only the leader map is kept.  `none` = the Python code raises (constants of different kinds
+are compared; cannot happen on well-typed input).
 -/
 namespace PySMT.Rewritings
 
@@ -21,13 +22,14 @@ def constNum : Term → Option Rat
   | .node .bvConst _ (.bv v _) => some v
   | _ => none
 
-/-- the sign of `compare(a, b)` (`none`: the subtraction raises `TypeError`) -/
+/-- the sign of `compare(a, b)` (`none`: the comparison raises `TypeError`) -/
 def compareRank (rank : Term → Int) (a b : Term) : Option Int :=
   if a == b then some 0
   else if isConstant a && isConstant b then
-    match constNum a, constNum b with
-    | some x, some y => some (if x < y then -1 else if x = y then 0 else 1)
-    | _, _ => none
+    match constNum a, constNum b, a.payload, b.payload with
+    | some x, some y, _, _ => some (if x < y then -1 else if x = y then 0 else 1)
+    | _, _, .s x, .s y => some (if x < y then -1 else if x = y then 0 else 1)
+    | _, _, _, _ => none
   else if isConstant a then some (-1)
   else if isConstant b then some 1
   else some (rank a - rank b)
